@@ -1639,6 +1639,10 @@ def c16_programs(tier, sd):
                 "ops": [["randomize", ["t"]], ["illformed_call", ["t"], bad_inl], ["list_append", ["t", "l"], 0], ["list_append", ["t", "l"], 0], ["randomize", ["t"]],
                         ["randomize", ["t"]], ["illformed_call", ["t"], bad_inl], ["randomize_with", ["t"], [E(["<", a, lit(3)])]], ["new", ["t2", "obj", "FE"]],
                         ["illformed_call", ["t2"], bad_inl], ["randomize", ["t2"]]]})
+    # construction of a covergroup aborted after expressions were evaluated: later calls on unrelated objects are unaffected
+    for var in ("typo_kwarg", "user_raise", "user_raise_two"):
+        out.append({"tag": "fault_cg", "desc": "covergroup constructor aborted (%s), then calls on unrelated objects" % var, "prog": pr, "world": [["p", "obj", "Probe"]],
+                    "ops": [["randomize_with", ["p"], [E(["<", a, lit(6)])]], ["cg_fault", var], ["randomize_with", ["p"], [E(["<", a, lit(6)])]], ["cg_fault", var]] + tail})
     out.append({"tag": "fault_unsat", "desc": "unsatisfiable calls interleaved", "prog": pr, "world": [["p", "obj", "Probe"]],
                 "ops": [["randomize_with", ["p"], unsat], ["randomize", ["p"]], ["randomize_with", ["p"], unsat], ["list_append", ["p", "l"], 0],
                         ["randomize_with", ["p"], unsat], ["randomize", ["p"]]] + tail})
